@@ -13,6 +13,9 @@ Failure keys
   lat<N>:<x0y0x1y1x2y2>-<x0y0x1y1x2y2>:<what>[:deg2|:deg3][:algebraic]     <what> in raised-<Exc>, bad-structure,
                                                                           wrong-area, wrong-region, order-dependent
   curved:<what>[:algebraic]
+  nocontact:<what>[:algebraic]      no edge meets an edge (nested / disjoint, family of harness/c06nest.py); <what> in
+                                    contained-reported-disjoint, disjoint-reported-contained, wrong-triangle-reported,
+                                    raised-<Exc>, order-dependent, or a <what> of the curved judge
 The lattice keys are canonical (enumerated space): the known failures of the unchanged tree are listed in
 known/C06-*.txt; `VERIF_C06_DUMP=1` regenerates those files by exhaustive enumeration (see known/C06-README.md).
 """
@@ -26,6 +29,7 @@ from fractions import Fraction as Fr
 import common as C
 import exact as X
 import clip as K
+import c06nest as NC
 
 TOL_LAT = Fr(1, 2 ** 40)
 TOL_CURVED = Fr(1, 2 ** 34)
@@ -742,6 +746,85 @@ def run_curved(n1, d1, n2, d2, entry, strategy, depth=4):
     return what, text
 
 
+# ------------------------------------------------------------------ no edge meets an edge: nested or disjoint (c06nest)
+def exact_nocontact(n1, d1, n2, d2):
+    """exact verdict for a pair whose boundaries are separated: the enclosure of the common area is a point.
+    -> (expect, area1, area2, common) with expect in 'first-inside', 'second-inside', 'disjoint', or None (not decided:
+    the enclosure is not a point / neither triangle is the common region / degenerate position)"""
+    e1, e2 = tri_edges(n1, d1), tri_edges(n2, d2)
+    a1 = sum(green_exact(e[0], e[1]) for e in e1)
+    a2 = sum(green_exact(e[0], e[1]) for e in e2)
+    try:
+        lo, hi, _ = K.curved_common_area(e1, e2, 4, BITS)
+    except K.Degenerate:
+        return None, a1, a2, None
+    if lo != hi:
+        return None, a1, a2, None
+    if lo == 0:
+        return "disjoint", a1, a2, lo
+    if lo == a1 and a1 < a2:
+        return "first-inside", a1, a2, lo
+    if lo == a2 and a2 < a1:
+        return "second-inside", a1, a2, lo
+    return None, a1, a2, lo
+
+
+def judge_nocontact(status, infos, contained, polys, expect, first, n1, d1, n2, d2):
+    """one call on a pair with an exact verdict (`expect` is stated for the ORIGINAL order; first = this call has the original
+    order).  The clauses of the property used: "Disjoint inputs give an empty list and containment returns the inner triangle
+    itself".  A non-empty list of regions is handed to the general curved judge (area, membership, structure)."""
+    if status == "NotImplementedError":
+        return None, "refused"
+    if status != "ok":
+        return "raised-" + status, "raised %s%s" % (status, infos)
+    if expect != "disjoint":
+        inner_is_first = (expect == "first-inside") == first
+        if infos is None:
+            if contained not in (True, False):
+                return "bad-structure", "edge_infos None with contained=%r" % (contained,)
+            if bool(contained) != inner_is_first:
+                return "wrong-triangle-reported", "the %s triangle is reported as the contained one, but it is the OUTER one" % ("first" if contained else "second")
+            return None, "contained"
+        if infos == []:
+            return "contained-reported-disjoint", "an empty list is returned (disjoint) although the %s triangle lies strictly inside the other one" % \
+                ("first" if inner_is_first else "second")
+    else:
+        if infos is None:
+            return "disjoint-reported-contained", "the %s triangle is reported as contained in the other although the two are disjoint" % \
+                ("first" if contained else "second")
+        if infos == []:
+            return None, "empty"
+    if first:
+        return judge_curved(status, infos, contained, n1, d1, n2, d2, polys, 4)
+    return judge_curved(status, infos, contained, n2, d2, n1, d1, polys, 4)
+
+
+def run_nocontact(n1, d1, n2, d2, entry, strategy, verdict=None):
+    """both argument orders of one entry point on a no-contact pair -> (what, text, expect)"""
+    expect, a1, a2, common = verdict or exact_nocontact(n1, d1, n2, d2)
+    if expect is None:
+        what, text = run_curved(n1, d1, n2, d2, entry, strategy)          # not a separated pair: the general judge decides
+        return what, text, "undecided"
+    facts = "exact areas %s and %s, exact common area %s (%s)" % (a1, a2, common, {"disjoint": "disjoint", "first-inside": "the first lies strictly inside the second",
+                                                                                  "second-inside": "the second lies strictly inside the first"}[expect])
+    outcome = []
+    for first in (True, False):
+        m1, e1, m2, e2 = (n1, d1, n2, d2) if first else (n2, d2, n1, d1)
+        polys = None
+        if entry == "function":
+            status, infos, contained = call_function(m1, e1, m2, e2)
+        else:
+            status, infos, contained, polys = call_api(m1, e1, m2, e2, S["STRAT"][strategy])
+        what, text = judge_nocontact(status, infos, contained, polys, expect, first, n1, d1, n2, d2)
+        if what is not None:
+            if not first and outcome and outcome[0] not in ("refused",):
+                return "order-dependent", "intersect(A, B) is right (%s) but intersect(B, A) is not: %s; %s" % (outcome[0], text, facts), expect
+            return what, ("" if first else "arguments swapped: ") + text + "; " + facts, expect
+        outcome.append(text)
+    return None, outcome[0] if outcome[0] == outcome[1] else "%s/%s" % tuple(outcome), expect
+
+
+
 # ------------------------------------------------------------------ decision trace (pure configuration)
 class Trace:
     """recording wrappers around the hazmat decision functions (module globals, run time only)"""
@@ -1133,12 +1216,60 @@ def main():
     if rep:
         if rep["kind"] == "lat":
             what, text, tag, bb = run_lattice(rep["n"], tparse(rep["t1"]), tparse(rep["t2"]), rep["deg"], rep["entry"], rep["strategy"])
+        elif rep["kind"] == "nocontact":
+            n1 = [[Fr(x) for x in r] for r in rep["n1"]]
+            n2 = [[Fr(x) for x in r] for r in rep["n2"]]
+            what, text, _ = run_nocontact(n1, rep["d1"], n2, rep["d2"], rep["entry"], rep["strategy"])
         else:
             n1 = [[Fr(x) for x in r] for r in rep["n1"]]
             n2 = [[Fr(x) for x in r] for r in rep["n2"]]
             what, text = run_curved(n1, rep["d1"], n2, rep["d2"], rep["entry"], rep["strategy"])
         print("replay: " + ("property fails on this input: %s: %s" % (what, text) if what else "property holds on this input (%s)" % text))
         sys.exit(1 if what else 0)
+
+    parts = os.environ.get("VERIF_C06_PARTS", "nocontact,lattice,decision,curved").split(",")     # debugging aid
+
+    # ---------------- no edge meets an edge: nested / disjoint pairs whose control nets mislead (harness/c06nest.py).
+    # Run FIRST and on a CPU-time budget (not wall time): on a loaded machine the lattice bulk below uses up the wall-time
+    # budgets of the later curved families; the first N_MIN cases run unconditionally.  Own PRNG derived from the seed, so
+    # that the sampled lattice / curved cases of a seed stay what they were.
+    import random as _random
+    nc_rnd = _random.Random(C.rng()[0].getrandbits(64) ^ 0x6E6F63)
+    n_nc = (1500 if thorough else 90) * (2 if search else 1)
+    if "nocontact" not in parts:
+        n_nc = 0
+    N_MIN, cpu0, nc_written = 12, time.process_time(), {}
+    for k in range(n_nc):
+        if not thorough and k >= N_MIN and time.process_time() - cpu0 > 20.0:
+            res.skip("cpu budget: remaining no-contact cases not run")
+            continue
+        cs = NC.case(nc_rnd, k)
+        n1, d1, n2, d2 = cs["n1"], cs["d1"], cs["n2"], cs["d2"]
+        verdict = exact_nocontact(n1, d1, n2, d2)
+        modes = [("function", "geometric"), ("api", "algebraic")]
+        if k % 3 == 0:
+            modes.append(("api", "geometric"))
+        for entry, strategy in modes:
+            what, text, expect = run_nocontact(n1, d1, n2, d2, entry, strategy, verdict)
+            res.count(("nocontact", str(n1), str(n2), entry, strategy), nontrivial=True, space="nocontact-%s-%s" % (entry, strategy),
+                      degrees="%d,%d" % (d1, d2), outcome=(what or text), nocontact_family=cs["family"], nocontact_expect=expect,
+                      **{"nocontact_" + t: v for t, v in cs["tags"].items()})
+            if what is not None:
+                key = "nocontact:" + what + ("" if strategy == "geometric" else ":" + strategy)
+                nc_written[key] = nc_written.get(key, 0) + 1
+                if nc_written[key] > 8:
+                    # Result keeps 200 failure records: a few witnesses per class are written out, every failure is counted
+                    fk = res.dist.setdefault("failure_keys", {})
+                    fk[key] = fk.get(key, 0) + 1
+                    continue
+                fails.add(key, "no edge meets an edge (%s pair, degrees %d and %d, %s; %s strategy, %s level): %s" %
+                          (cs["family"], d1, d2, ", ".join("%s=%s" % kv for kv in sorted(cs["tags"].items())), strategy, entry, text),
+                          {"kind": "nocontact", "n1": C.jfr(n1), "d1": d1, "n2": C.jfr(n2), "d2": d2, "entry": entry, "strategy": strategy})
+            elif k < 2 and entry == "function":
+                res.sample({"kind": "nocontact", "family": cs["family"], "tags": cs["tags"], "degrees": [d1, d2], "expect": expect, "outcome": text})
+    t_nc = time.time() - t_start
+    cpu_nc = time.process_time() - cpu0
+    t_start = time.time()          # the wall-time budgets of the families below are what they were before this family was added
 
     tris3, tris4 = lattice_tris(3), lattice_tris(4)
     res.notes.append("positively oriented lattice triangles: 3x3: %d (%d ordered pairs), 4x4: %d (%d ordered pairs)" %
@@ -1165,7 +1296,6 @@ def main():
         if search:
             n4 *= 2
         plan += [(4, rnd.choice(tris4), rnd.choice(tris4), 1, "function", "geometric") for _ in range(n4)]      # sampled, last
-    parts = os.environ.get("VERIF_C06_PARTS", "lattice,decision,curved").split(",")     # debugging aid
     if "lattice" not in parts:
         plan = []
 
@@ -1300,7 +1430,7 @@ def main():
             if what is not None:
                 fails.add(tangency_key(what, text), "internal tangency, degrees %d and %d: %s" % (d1, d2, text),
                           {"kind": "curved", "n1": C.jfr(n1), "d1": d1, "n2": C.jfr(n2), "d2": d2, "entry": "function", "strategy": "geometric"})
-    res.notes.append("wall: lattice %.1fs, curved %.1fs" % (t_curved - t_start, time.time() - t_curved))
+    res.notes.append("wall: no-contact %.1fs (cpu %.1fs), lattice %.1fs, curved %.1fs" % (t_nc, cpu_nc, t_curved - t_start, time.time() - t_curved))
     res.emit()
 
 
